@@ -25,14 +25,14 @@ import copy
 import itertools
 
 LOGGY = ("logger", "logging", "statsd", "opentracing", "tracer", "span", "scope", "metrics_logger")
-PURE_FUNCS = {"len", "isinstance", "str", "int", "float", "bool", "tuple", "frozenset", "min", "max", "sum", "abs", "round",
+PURE_FUNCS = {"_at", "len", "isinstance", "str", "int", "float", "bool", "tuple", "frozenset", "min", "max", "sum", "abs", "round",
               "range", "enumerate", "zip", "iter", "type", "repr", "hasattr", "getattr", "callable", "any", "all", "ord", "chr", "id", "reversed",
               "bytes", "divmod", "format", "hash", "issubclass", "next", "sorted", "_concat"}
 PURE_METHODS = {"get", "startswith", "endswith", "format", "split", "rsplit", "join", "lower", "upper", "strip", "lstrip", "rstrip", "replace", "encode", "decode",
                 "keys", "values", "items", "partition", "rpartition", "find", "rfind", "index", "count", "capitalize", "title", "isdigit", "isalpha",
                 "isalnum", "zfill", "splitlines", "casefold", "ljust", "rjust", "timestamp", "total_seconds", "isoformat", "group", "groups", "match", "search",
                 "fullmatch", "hexdigest", "digest"}
-PURE_DOTTED = {"json.dumps", "os.environ.get", "os.path.join", "re.compile", "re.match", "re.search", "re.escape", "re.fullmatch",
+PURE_DOTTED = {"json.dumps", "os.environ.get", "os.path.join", "re.compile", "re.match", "re.search", "re.escape", "re.fullmatch", "re.sub", "re.split", "re.findall",
                "math.floor", "math.ceil", "math.pow", "base64.b64encode", "base64.b64decode", "stdjson.dumps"}
 # not pure on purpose: time.time / uuid4 / random (a second evaluation gives another value); json.loads / deepcopy / dict() / list() / set()
 # and displays (a second evaluation gives another object: they are `alloc` effects with a canonical object name)
@@ -40,8 +40,21 @@ ALLOC_FUNCS = {"dict", "list", "set", "bytearray", "OrderedDict", "defaultdict"}
 ALLOC_DOTTED = {"json.loads", "stdjson.loads", "copy.deepcopy", "copy.copy", "collections.OrderedDict"}
 
 
+REGEX_METHODS = {"search", "match", "fullmatch", "sub", "subn", "split", "findall", "finditer"}
+
+
 class TooComplex(Exception):
     pass
+
+
+import time as _time
+DEADLINE = [None]       # monotonic deadline of the proof attempt in progress (set by the caller); exceeding it is TooComplex, never a verdict
+
+
+def _tick():
+    d = DEADLINE[0]
+    if d is not None and _time.monotonic() > d:
+        raise TooComplex("time budget of one proof attempt exhausted")
 
 
 # ---------------------------------------------------------------------------------------------------------- expressions
@@ -174,6 +187,56 @@ class _Subst(ast.NodeTransformer):
             self.env = saved
 
 
+def _is_boolean(n):
+    if isinstance(n, ast.Compare):
+        return True
+    if isinstance(n, ast.UnaryOp) and isinstance(n.op, ast.Not):
+        return True
+    if isinstance(n, ast.BoolOp):
+        return all(_is_boolean(v) for v in n.values)
+    if isinstance(n, ast.Constant):
+        return isinstance(n.value, bool)
+    if isinstance(n, ast.Call) and isinstance(n.func, ast.Name) and n.func.id in ("isinstance", "bool", "callable", "hasattr", "any", "all", "issubclass"):
+        return True
+    if isinstance(n, ast.Call) and isinstance(n.func, ast.Attribute) and n.func.attr in ("startswith", "endswith", "isdigit", "isalpha", "isalnum"):
+        return True
+    return False
+
+
+def _format_parts(tmpl, args, kwargs):
+    """pieces of `tmpl.format(*args, **kwargs)` (auto / positional / named fields, {{ }} escapes; no conversions or format specs)"""
+    import string
+    out, auto = [], 0
+    try:
+        parsed = list(string.Formatter().parse(tmpl))
+    except ValueError:
+        return None
+    for lit, field, spec, conv in parsed:
+        if lit:
+            out.append(ast.Constant(lit))
+        if field is None:
+            continue
+        if spec or conv:
+            return None
+        if field == "":
+            if auto >= len(args):
+                return None
+            v = args[auto]
+            auto += 1
+        elif field.isdigit():
+            if int(field) >= len(args):
+                return None
+            v = args[int(field)]
+        elif field.isidentifier():
+            if field not in kwargs:
+                return None
+            v = kwargs[field]
+        else:
+            return None
+        out.extend(_concat_parts(v) or [v])
+    return out
+
+
 def _concat_parts(node):
     """flatten string building into a list of parts, or None if `node` is not string building"""
     if isinstance(node, ast.JoinedStr):
@@ -194,17 +257,8 @@ def _concat_parts(node):
             return (l or [node.left]) + (r or [node.right])
         return None
     if isinstance(node, ast.Call) and isinstance(node.func, ast.Attribute) and node.func.attr == "format" and isinstance(node.func.value, ast.Constant) \
-            and isinstance(node.func.value.value, str) and not node.keywords:
-        pieces = node.func.value.value.split("{}")
-        if len(pieces) - 1 != len(node.args) or "{" in "".join(pieces) or "}" in "".join(pieces):
-            return None
-        out = []
-        for i, p in enumerate(pieces):
-            if p:
-                out.append(ast.Constant(p))
-            if i < len(node.args):
-                out.extend(_concat_parts(node.args[i]) or [node.args[i]])
-        return out
+            and isinstance(node.func.value.value, str) and not any(isinstance(a, ast.Starred) for a in node.args) and all(k.arg for k in node.keywords):
+        return _format_parts(node.func.value.value, list(node.args), {k.arg: k.value for k in node.keywords})
     if isinstance(node, ast.BinOp) and isinstance(node.op, ast.Mod) and isinstance(node.left, ast.Constant) and isinstance(node.left.value, str):
         args = node.right.elts if isinstance(node.right, ast.Tuple) else [node.right]
         pieces = node.left.value.split("%s")
@@ -239,7 +293,14 @@ class _Canon(ast.NodeTransformer):
         parts = _concat_parts(node)
         if parts is not None:
             return self._concat(parts)
-        return self.generic_visit(node)
+        node = self.generic_visit(node)
+        if isinstance(node.func, ast.Name) and node.func.id == "bool" and len(node.args) == 1 and not node.keywords and _is_boolean(node.args[0]):
+            return node.args[0]
+        # re.compile(P).search(x) is re.search(P, x)
+        f = node.func
+        if isinstance(f, ast.Attribute) and f.attr in REGEX_METHODS and isinstance(f.value, ast.Call) and _dotted(f.value.func) == "re.compile" and not f.value.keywords:
+            return ast.Call(ast.Attribute(ast.Name("re", ast.Load()), f.attr, ast.Load()), list(f.value.args[:1]) + list(node.args) + list(f.value.args[1:]), node.keywords)
+        return node
 
     def visit_Lambda(self, node):
         return node
@@ -320,6 +381,18 @@ def text(node):
 
 # ---------------------------------------------------------------------------------------------------------- formulas
 
+def _never_none(n):
+    if isinstance(n, ast.Constant):
+        return n.value is not None
+    if isinstance(n, (ast.JoinedStr, ast.Dict, ast.List, ast.Set, ast.Tuple, ast.ListComp, ast.DictComp, ast.SetComp, ast.Compare)):
+        return True
+    if isinstance(n, ast.Call) and isinstance(n.func, ast.Name) and n.func.id in ("_concat", "str", "len", "int", "bool", "isinstance", "dict", "list", "set", "tuple"):
+        return True
+    if isinstance(n, ast.Name) and n.id.startswith("$o"):
+        return True
+    return False
+
+
 def formula(node):
     """boolean formula over atoms: ('atom', text) | ('not', f) | ('and', [f]) | ('or', [f]) | ('const', bool)"""
     if isinstance(node, ast.BoolOp):
@@ -342,6 +415,21 @@ def formula(node):
                     return ("not", truth)
                 if (o is ast.NotEq and k == 0) or (o is ast.Gt and k == 0) or (o is ast.GtE and k == 1):
                     return truth
+        for a, b, flip in ((l, r, False), (r, l, True)):
+            if isinstance(a, ast.Call) and isinstance(a.func, ast.Name) and a.func.id == "len" and len(a.args) == 1 and isinstance(b, ast.Constant) and type(b.value) is int \
+                    and isinstance(op, (ast.Lt, ast.Gt, ast.LtE, ast.GtE)):
+                o = type(op)
+                if flip:
+                    o = {ast.Lt: ast.Gt, ast.Gt: ast.Lt, ast.LtE: ast.GtE, ast.GtE: ast.LtE}[o]
+                k = b.value
+                la = text(a)
+                if o is ast.Lt:
+                    return ("atom", "%s < %d" % (la, k))
+                if o is ast.LtE:
+                    return ("atom", "%s < %d" % (la, k + 1))
+                if o is ast.GtE:
+                    return ("not", ("atom", "%s < %d" % (la, k)))
+                return ("not", ("atom", "%s < %d" % (la, k + 1)))
         lt, rt = text(l), text(r)
         if isinstance(op, ast.Eq):
             a, b = sorted((lt, rt))
@@ -349,6 +437,8 @@ def formula(node):
         if isinstance(op, ast.NotEq):
             a, b = sorted((lt, rt))
             return ("not", ("atom", "%s == %s" % (a, b)))
+        if isinstance(op, (ast.Is, ast.IsNot)) and isinstance(r, ast.Constant) and r.value is None and _never_none(l):
+            return ("const", isinstance(op, ast.IsNot))
         if isinstance(op, ast.Is):
             return ("atom", "%s is %s" % (lt, rt))
         if isinstance(op, ast.IsNot):
@@ -380,6 +470,9 @@ def formula(node):
     if isinstance(node, ast.IfExp):
         c, a, b = formula(node.test), formula(node.body), formula(node.orelse)
         return ("or", [("and", [c, a]), ("and", [("not", c), b])])
+    if _never_none(node) and isinstance(node, ast.Call) and isinstance(node.func, ast.Name) and node.func.id == "_concat" and any(
+            isinstance(a, ast.Constant) and a.value for a in node.args):
+        return ("const", True)      # a string with a non-empty literal part is truthy
     return ("atom", "bool(%s)" % text(node))
 
 
@@ -476,10 +569,74 @@ def event_text(ev):
     return str(ev)
 
 
-def exit_text(ex):
-    if ex is None or (ex[0] == "return" and ex[1] in (None, "None")):
+def exit_text(ex, fall="return"):
+    """`fall`: what running off the end of the sequence means - 'return' (a function body), 'continue' (a loop body) or None (the
+    statements that follow the sequence run next)"""
+    if ex is None:
+        return {"return": "return None", "continue": "continue"}.get(fall, "<falls through>")
+    if ex[0] == "return" and ex[1] in (None, "None"):
         return "return None"
     return "%s %s" % (ex[0], ex[1]) if len(ex) > 1 and ex[1] is not None else ex[0]
+
+
+def _root(e):
+    """the variable (or self attribute) an expression reads from: `context['State'].get('x')` -> 'context', `self.a.b[c]` -> 'self.a'"""
+    chain = []
+    while True:
+        if isinstance(e, ast.Attribute):
+            chain.append(e.attr)
+            e = e.value
+        elif isinstance(e, ast.Subscript):
+            chain.append(None)
+            e = e.value
+        elif isinstance(e, ast.Call):
+            chain.append(None)
+            e = e.func
+        else:
+            break
+    if isinstance(e, ast.Name):
+        if e.id in ("self", "cls") and chain and chain[-1]:
+            return e.id + "." + chain[-1]
+        return e.id
+    return None
+
+
+def _reads_from(val, roots):
+    """does the (substituted) expression read a member / item / attribute of one of `roots`?"""
+    if isinstance(val, ast.Call) and isinstance(val.func, ast.Name) and val.func.id == "_at":
+        return False        # already pinned to an earlier moment
+    for n in ast.walk(val):
+        if isinstance(n, (ast.Subscript, ast.Attribute)) or (isinstance(n, ast.Call) and isinstance(n.func, ast.Attribute)):
+            if isinstance(n, ast.Attribute) and isinstance(n.value, ast.Name) and n.value.id in ("self", "cls"):
+                r = n.value.id + "." + n.attr
+            else:
+                r = _root(n)
+            if r in roots:
+                return True
+    return False
+
+
+def _invalidate(p, roots):
+    """an effect that may change what `roots` hold has just been recorded: substituted reads of them are pinned to the moment before it"""
+    roots = {r for r in roots if r}
+    if not roots:
+        return
+    k = sum(1 for e in p.trace if e[0] != "test") - 1        # index of the effect that has just been recorded
+    for name, val in list(p.env.items()):
+        if isinstance(val, ast.AST) and _reads_from(val, roots):
+            p.env[name] = ast.Call(ast.Name("_at", ast.Load()), [ast.Constant(k), val], [])
+
+
+def _call_roots(call):
+    roots = set()
+    if isinstance(call.func, ast.Attribute):
+        roots.add(_root(call.func.value))
+    for a in list(call.args) + [k.value for k in call.keywords]:
+        if isinstance(a, ast.Starred):
+            a = a.value
+        if isinstance(a, (ast.Name, ast.Attribute, ast.Subscript)):
+            roots.add(_root(a) if not isinstance(a, ast.Name) else a.id)
+    return roots
 
 
 class _Eval(ast.NodeTransformer):
@@ -503,6 +660,7 @@ class _Eval(ast.NodeTransformer):
         nm = "$r%d" % self.p.nres
         self.p.nres += 1
         self.p.trace.append(("call", "%s = %s" % (nm, text(node))))
+        _invalidate(self.p, _call_roots(node))
         return ast.Name(nm, ast.Load())
 
     def _obj(self, node):
@@ -651,6 +809,7 @@ class Summariser:
 
     def _seq(self, stmts, paths, in_loop):
         for s in stmts:
+            _tick()
             nxt = []
             for p in paths:
                 if p.exit is not None:
@@ -694,6 +853,12 @@ class Summariser:
                 targets, value = s.targets, s.value
             while isinstance(value, ast.Await):
                 value = value.value
+            if isinstance(value, (ast.BoolOp, ast.Compare, ast.UnaryOp)) and _is_boolean(value) and len(targets) == 1 and isinstance(targets[0], ast.Name):
+                mk = lambda c: ast.fix_missing_locations(ast.copy_location(ast.Assign(copy.deepcopy(targets), ast.Constant(c)), s))
+                return self._stmt(ast.fix_missing_locations(ast.copy_location(ast.If(value, [mk(True)], [mk(False)]), s)), p, in_loop)
+            if isinstance(value, ast.IfExp):
+                mk = lambda v: ast.fix_missing_locations(ast.copy_location(ast.Assign(copy.deepcopy(targets), v), s))
+                return self._stmt(ast.fix_missing_locations(ast.copy_location(ast.If(value.test, [mk(value.body)], [mk(value.orelse)]), s)), p, in_loop)
             # name = [elt for x in xs if c]  ==  name = []; for x in xs: if c: name.append(elt)
             if len(targets) == 1 and isinstance(targets[0], ast.Name) and isinstance(value, (ast.ListComp, ast.DictComp, ast.SetComp)) and len(value.generators) == 1 \
                     and not value.generators[0].is_async:
@@ -730,12 +895,25 @@ class Summariser:
                 if isinstance(t, ast.Name):
                     p.env.pop(t.id, None)
                 else:
-                    p.trace.append(("del", text(self._ev(p, self._load(t)))))
+                    tn = self._ev(p, self._load(t))
+                    p.trace.append(("del", text(tn)))
+                    _invalidate(p, {_root(tn)})
             return [p]
         if isinstance(s, ast.Return):
             v = s.value
             while isinstance(v, ast.Await):
                 v = v.value
+            if isinstance(v, ast.IfExp):
+                mk = lambda x: ast.fix_missing_locations(ast.copy_location(ast.Return(x), s))
+                return self._stmt(ast.fix_missing_locations(ast.copy_location(ast.If(v.test, [mk(v.body)], [mk(v.orelse)]), s)), p, in_loop)
+            if isinstance(v, (ast.BoolOp, ast.Compare, ast.UnaryOp)) and _is_boolean(v):
+                mk = lambda c: ast.fix_missing_locations(ast.copy_location(ast.Return(ast.Constant(c)), s))
+                return self._stmt(ast.fix_missing_locations(ast.copy_location(ast.If(v, [mk(True)], [mk(False)]), s)), p, in_loop)
+            if isinstance(v, ast.BoolOp) and isinstance(v.op, ast.And) and len(v.values) > 1 and all(_is_boolean(x) for x in v.values[:-1]):
+                # `A and B and X` with boolean A, B is X when they hold and False otherwise
+                guard = v.values[0] if len(v.values) == 2 else ast.BoolOp(ast.And(), list(v.values[:-1]))
+                st = ast.If(guard, [ast.Return(v.values[-1])], [ast.Return(ast.Constant(False))])
+                return self._stmt(ast.fix_missing_locations(ast.copy_location(st, s)), p, in_loop)
             if isinstance(v, ast.Call) and not _is_loggy_call(v):
                 inl = self._as_pop(v, p) or self._try_inline(v, p, in_loop)
                 if inl is not None:
@@ -802,21 +980,33 @@ class Summariser:
             self.nloop += 1
             body_env = dict(p.env)
             tnames = []
-            for n in ast.walk(s.target):
-                if isinstance(n, ast.Name) and n.id not in tnames:
-                    tnames.append(n.id)
-            for k, nm in enumerate(tnames):
-                body_env[nm] = ast.Name("$i%d_%d" % (self.nloop, k), ast.Load())
-            tt = text(_Subst({nm: body_env[nm] for nm in tnames}).visit(self._load(s.target)))
+            itv = ast.Name("$i%d" % self.nloop, ast.Load())
+
+            def bind_target(t, val):
+                if isinstance(t, ast.Name):
+                    tnames.append(t.id)
+                    body_env[t.id] = val
+                elif isinstance(t, (ast.Tuple, ast.List)):
+                    for i, e in enumerate(t.elts):
+                        bind_target(e, ast.Subscript(val, ast.Constant(i), ast.Load()))
+                elif isinstance(t, ast.Starred):
+                    bind_target(t.value, val)
+            bind_target(s.target, itv)
+            tt = itv.id if tnames or isinstance(s.target, (ast.Tuple, ast.List)) else text(self._load(s.target))
             start = Path(env=body_env, nres=p.nres, nobj=p.nobj)
             sub = Table(self._seq(s.body, [start], in_loop=True))
-            p.trace.append(("for", tt, text(itn), sub))
-            self._forget_assigned(s, p)
-            for nm in tnames:
-                p.env[nm] = body_env[nm]
+            outs = []
+            for q, subq in self._unswitch(p, sub, s):
+                # a loop over a side-effect-free iterable whose body does nothing is nothing
+                if not (all(not [e for e in r.trace if e[0] != "test"] and (r.exit is None or r.exit[0] == "continue") for r in subq.paths)):
+                    q.trace.append(("for", tt, text(itn), subq))
+                self._forget_assigned(s, q)
+                for nm in tnames:
+                    q.env[nm] = body_env[nm]
+                outs.append(q)
             if s.orelse:
-                return self._seq(s.orelse, [p], in_loop)
-            return [p]
+                return self._seq(s.orelse, outs, in_loop)
+            return outs
         if isinstance(s, ast.While):
             tn = norm_expr(s.test, {k: v for k, v in p.env.items() if k not in self.carried})
             start = Path(env=dict(p.env), nres=p.nres, nobj=p.nobj)
@@ -874,6 +1064,54 @@ class Summariser:
                 outs = res
             return outs
         raise TooComplex("statement %s" % type(s).__name__)
+
+    def _unswitch(self, p, sub, loop):
+        """[(outer path, body table)]: when every path of the loop body first decides a formula over plain local names that the loop does
+        not assign (and constants), that decision is the same in every iteration: it is moved in front of the loop"""
+        assigned = {n.id for n in ast.walk(loop) if isinstance(n, ast.Name) and isinstance(n.ctx, ast.Store)}
+        for _ in range(3):
+            if not sub.paths or not all(q.cond for q in sub.paths):
+                break
+            f0 = sub.paths[0].cond[0][0]
+            ft = ftext(f0)
+            if not all(ftext(q.cond[0][0]) == ft for q in sub.paths):
+                break
+            ok = True
+            for a in atoms_of(f0):
+                try:
+                    e = ast.parse(a.replace("$", "__D_"), mode="eval").body
+                except SyntaxError:
+                    ok = False
+                    break
+                for n in ast.walk(e):
+                    if isinstance(n, (ast.Attribute, ast.Subscript)) or (isinstance(n, ast.Call) and not (isinstance(n.func, ast.Name) and n.func.id in ("bool", "len", "isinstance"))):
+                        ok = False
+                    if isinstance(n, ast.Name) and (n.id.startswith("__D_") or n.id in assigned or n.id in self.carried):
+                        ok = False
+            # the test must be the first thing every path does
+            if not ok or any(q.trace and q.trace[0][0] != "test" for q in sub.paths):
+                break
+            known = self._known(f0, p)
+            res = []
+            for pol in (True, False):
+                if known is not None and known != pol:
+                    continue
+                sel = []
+                for q in sub.paths:
+                    if q.cond[0][1] == pol:
+                        r = q.fork()
+                        r.cond = r.cond[1:]
+                        ats = atoms_of(f0)
+                        r.trace = [e for e in r.trace if not (e[0] == "test" and e[1] in ats)]
+                        sel.append(r)
+                outer = p.fork()
+                if known is None:
+                    for a in sorted(atoms_of(f0)):
+                        outer.trace.append(("test", a))
+                    outer.cond.append((f0, pol))
+                res.extend(self._unswitch(outer, Table(sel), loop))
+            return res
+        return [(p, sub)]
 
     def _if(self, s, p, tn, in_loop):
         f = formula(tn)
@@ -957,6 +1195,7 @@ class Summariser:
             return
         tn = self._ev(p, self._load(target))
         p.trace.append(("store", text(tn), text(vn)))
+        _invalidate(p, {_root(tn)})
 
     def _known(self, f, p):
         ft = ftext(f)
@@ -1009,7 +1248,8 @@ class Summariser:
                 a.cond.append((f, True))
             item = ast.Subscript(d, k, ast.Load())
             a.trace.append(("del", text(item)))
-            outs.append((a, item))
+            _invalidate(a, {_root(item)})
+            outs.append((a, ast.Call(ast.Name("_at", ast.Load()), [ast.Constant(sum(1 for e in a.trace if e[0] != "test") - 1), item], [])))
         if known is not True:
             b = p.fork()
             if known is None:
@@ -1168,9 +1408,9 @@ def events_equal(a, b, diffs, ctx):
         return False
     k = a[0]
     if k == "for":
-        return a[1] == b[1] and a[2] == b[2] and tables_equal(a[3], b[3], diffs, ctx + " > for %s" % a[1])
+        return a[1] == b[1] and a[2] == b[2] and tables_equal(a[3], b[3], diffs, ctx + " > for %s" % a[1], fall="continue")
     if k == "while":
-        return a[1] == b[1] and tables_equal(a[2], b[2], diffs, ctx + " > while")
+        return a[1] == b[1] and tables_equal(a[2], b[2], diffs, ctx + " > while", fall="continue")
     return a == b
 
 
@@ -1208,7 +1448,9 @@ def _compatible(la, lb, max_free=16):
     free = sorted(set().union(*[atoms_of(g) for g, _ in rest]) - set(fixed))
     if len(free) > max_free:
         raise TooComplex("%d free atoms in one pair of paths" % len(free))
-    for bits in itertools.product((False, True), repeat=len(free)):
+    for n_, bits in enumerate(itertools.product((False, True), repeat=len(free))):
+        if n_ % 2048 == 0:
+            _tick()
         asg = dict(fixed)
         asg.update(zip(free, bits))
         if all(evalf(g, asg) == v for g, v in rest):
@@ -1216,7 +1458,7 @@ def _compatible(la, lb, max_free=16):
     return None
 
 
-def tables_equal(ta, tb, diffs, ctx="", live=()):
+def tables_equal(ta, tb, diffs, ctx="", live=(), fall="return"):
     la = [_literals(p.cond) for p in ta.paths]
     lb = [_literals(p.cond) for p in tb.paths]
     ok = True
@@ -1224,6 +1466,7 @@ def tables_equal(ta, tb, diffs, ctx="", live=()):
     for i, pa in enumerate(ta.paths):
         if la[i] is None:
             continue
+        _tick()
         for j, pb in enumerate(tb.paths):
             if lb[j] is None:
                 continue
@@ -1233,8 +1476,8 @@ def tables_equal(ta, tb, diffs, ctx="", live=()):
             seen_a.add(i)
             seen_b.add(j)
             why = None
-            if exit_text(pa.exit) != exit_text(pb.exit):
-                why = "ends differently: `%s` vs reference `%s`" % (exit_text(pa.exit), exit_text(pb.exit))
+            if exit_text(pa.exit, fall) != exit_text(pb.exit, fall):
+                why = "ends differently: `%s` vs reference `%s`" % (exit_text(pa.exit, fall), exit_text(pb.exit, fall))
             else:
                 (efa, tsa), (efb, tsb) = _split(pa.trace), _split(pb.trace)
                 alla = {e[1] for e in pa.trace if e[0] == "test"}
@@ -1327,7 +1570,7 @@ def _region_fn(stmts):
     return fn
 
 
-def regions_equal(fstmts, rstmts, live, helpers_f=None, helpers_r=None, keep=()):
+def regions_equal(fstmts, rstmts, live, helpers_f=None, helpers_r=None, keep=(), env_f=None, env_r=None, fall=None):
     """are two statement sequences interchangeable?  -> (equal, diffs).  Raises TooComplex outside the fragment."""
     carried = set()     # names assigned inside loops and read after the region stay opaque `set` events
     for stmts in (fstmts, rstmts):
@@ -1341,8 +1584,8 @@ def regions_equal(fstmts, rstmts, live, helpers_f=None, helpers_r=None, keep=())
                         for n in ast.walk(lp.target):
                             if isinstance(n, ast.Name):
                                 carried.discard(n.id)
-    ta = Summariser(_region_fn(fstmts), helpers=helpers_f, keep=keep, extra_carried=carried).table()
-    tb = Summariser(_region_fn(rstmts), helpers=helpers_r, keep=keep, extra_carried=carried).table()
+    ta = Summariser(_region_fn(fstmts), helpers=helpers_f, keep=keep, extra_carried=carried).table(Path(env=dict(env_f or {})))
+    tb = Summariser(_region_fn(rstmts), helpers=helpers_r, keep=keep, extra_carried=carried).table(Path(env=dict(env_r or {})))
     diffs = []
-    eq = tables_equal(ta, tb, diffs, live=set(live) - carried)
+    eq = tables_equal(ta, tb, diffs, live=set(live) - carried, fall=fall)
     return eq, diffs
